@@ -1,0 +1,57 @@
+//go:build verif
+
+package scheduler
+
+import (
+	"time"
+
+	"github.com/google/btree"
+)
+
+// Verification hooks for property C17 (add-only, compiled only with -tags verif).
+// They expose a lock-consistent read-only snapshot of the scheduler's bookkeeping and let a
+// harness move a mock clock while the scheduler mutex is held (the recipe of scheduler_test.go).
+
+// VerifItem is a copy of one Item of the priority queue.
+type VerifItem struct {
+	When, Next, Offset int64
+	ID                 ID
+}
+
+// VerifSnapshot is the state of the TreeScheduler under its read lock.
+type VerifSnapshot struct {
+	Queue       []VerifItem  // btree contents in Ascend order
+	Index       map[ID]int64 // copy of nextTime
+	When        time.Time    // s.when
+	TickPending bool         // a timer tick is waiting in timer.C
+	Workers     int
+}
+
+// VerifState returns a snapshot taken under s.mu.RLock().
+func (s *TreeScheduler) VerifState() VerifSnapshot {
+	s.mu.RLock()
+	defer s.mu.RUnlock()
+	out := VerifSnapshot{Index: make(map[ID]int64, len(s.nextTime)), When: s.when, Workers: len(s.workchans)}
+	s.priorityQueue.Ascend(func(i btree.Item) bool {
+		it := i.(Item)
+		out.Queue = append(out.Queue, VerifItem{When: it.when, Next: it.next, Offset: it.Offset, ID: it.id})
+		return true
+	})
+	for k, v := range s.nextTime {
+		out.Index[k] = v
+	}
+	out.TickPending = len(s.timer.C) > 0
+	return out
+}
+
+// VerifWithLock runs f while holding the scheduler's write lock.
+func (s *TreeScheduler) VerifWithLock(f func()) {
+	s.mu.Lock()
+	defer s.mu.Unlock()
+	f()
+}
+
+// VerifLess exposes Item.Less on plain (when, id) keys.
+func VerifLess(whenA int64, idA ID, whenB int64, idB ID) bool {
+	return Item{when: whenA, id: idA}.Less(Item{when: whenB, id: idB})
+}
